@@ -118,7 +118,7 @@ fn judge(out: &mut Out, label: &str, trace: &[String]) {
 }
 
 pub fn run(thorough: bool, mut rng: Rng, mut out: Out) {
-    let n15 = if thorough { 200 } else { 30 };
+    let n15 = if thorough { 1000 } else { 30 };
     for k in 0..n15 {
         let o = run_script(&f15_script());
         let ev = to_model_events(&o.trace);
@@ -131,7 +131,7 @@ pub fn run(thorough: bool, mut rng: Rng, mut out: Out) {
     // (single or search) that timed out while still queued behind a stalled write is handed out again
     // (counter rewound through the hook, the table is the library's own) to a single operation, whose
     // response must reach it.  R-oracle only (the rewind is not a model event).
-    let nreuse = if thorough { 120 } else { 24 };
+    let nreuse = if thorough { 600 } else { 24 };
     for k in 0..nreuse {
         let kind = if k % 2 == 0 { OpKind::Search } else { OpKind::Single };
         let sc = vec![
@@ -273,7 +273,7 @@ pub fn run(thorough: bool, mut rng: Rng, mut out: Out) {
         }
     }
     // random mixes of timed and untimed operations
-    let n = if thorough { 15000 } else { 1500 };
+    let n = if thorough { 80000 } else { 1500 };
     for k in 0..n {
         let n_ops = rng.range(2, 8) as usize;
         let script = crate::lanes::routing::gen_script_ex(&mut rng, n_ops, false, true, true, k % 5 == 0);
